@@ -576,7 +576,75 @@ def r4(idx, rep):
     rep.check(okw, "R4", f"{ff.file}::FileCacher warm path uses the cached pair", f"{ps[0].result if ps else None}", K.where(ff, ff.node))
 
 
+def _pure_helper_call(fi, call):
+    """a call (result discarded, e.g. a validity probe inside try/except) of a helper of the same class whose body stores nothing and
+    calls nothing that mutates or does I/O"""
+    if not (isinstance(call.func, ast.Attribute) and isinstance(call.func.value, ast.Name) and call.func.value.id in ("self", "cls", fi.cls or "")):
+        return False
+    idx = _IDX[0]
+    if idx is None or not fi.cls or not idx.has_method(fi.cls, call.func.attr):
+        return False
+    m = idx.method(fi.cls, call.func.attr)
+    for n in ast.walk(m.node):
+        if isinstance(n, (ast.Attribute, ast.Subscript)) and isinstance(n.ctx, (ast.Store, ast.Del)):
+            return False
+        if isinstance(n, (ast.Global, ast.Nonlocal, ast.Yield, ast.YieldFrom)):
+            return False
+        if isinstance(n, ast.Call) and (call_name(n) in MUTATORS or call_name(n) in ("open", "print", "write", "remove", "makedirs", "mkdir", "rename", "unlink", "rmtree")):
+            return False
+        if isinstance(n, ast.Call) and isinstance(n.func, ast.Attribute) and isinstance(n.func.value, ast.Name) and n.func.value.id in ("self", "cls"):
+            return False   # not followed further
+    return True
+
+
+_IDX = [None]
+
+
+def _order_free_loop(fi, loop):
+    """a loop over a directory listing whose only effect is appending to one local list, which is used afterwards only through sorted(…) /
+    after .sort(): the order of the listing cannot be observed"""
+    sink = None
+    for st in ast.walk(loop):
+        if isinstance(st, (ast.Assign, ast.AugAssign, ast.Delete, ast.Yield, ast.YieldFrom, ast.Return, ast.Break, ast.With, ast.Raise)):
+            return False
+        if isinstance(st, ast.Expr) and isinstance(st.value, ast.Call):
+            c = st.value
+            if isinstance(c.func, ast.Attribute) and c.func.attr == "append" and isinstance(c.func.value, ast.Name):
+                if sink not in (None, c.func.value.id):
+                    return False
+                sink = c.func.value.id
+            else:
+                d = dotted(c.func) or ""
+                if not (".logger." in "." + d or d.startswith("logging.") or _pure_helper_call(fi, c)):
+                    return False
+    if sink is None:
+        return False
+    parents = {}
+    for p_ in ast.walk(fi.node):
+        for ch in ast.iter_child_nodes(p_):
+            parents[id(ch)] = p_
+    inside = {id(x) for x in ast.walk(loop)}
+    sorted_after = False
+    for n in ast.walk(fi.node):
+        if not (isinstance(n, ast.Name) and n.id == sink and id(n) not in inside):
+            continue
+        par = parents.get(id(n))
+        if isinstance(n.ctx, ast.Store):
+            continue   # its initialisation
+        if isinstance(par, ast.Call) and call_name(par) == "sorted" and par.args and par.args[0] is n:
+            sorted_after = True
+            continue
+        if isinstance(par, ast.Attribute) and par.attr == "sort":
+            sorted_after = True
+            continue
+        if isinstance(par, ast.Call) and call_name(par) == "len":
+            continue
+        return False
+    return sorted_after
+
+
 def r5(idx, rep):
+    _IDX[0] = idx
     listed = {"FileManager.add_named_files_from_dir": "registration order of a directory listing (documented)", "PathsManager.add_named_paths_from_dir": "sorted below",
               "ResultsManager.list_named_results": "sorted", "ResultsManager._find": "sorted by parsed time in _find_in_dir_names",
               "LogUtility": "logging", "FileManager.named_file_names": "inventory of the store, not a run result",
@@ -596,5 +664,8 @@ def r5(idx, rep):
                     rep.fail("R5", f"{fi.file}::{fi.qual} iterates a set", unparse(it)[:80], K.where(fi, fi.node))
                 if isinstance(it, ast.Call) and call_name(it) == "listdir":
                     n += 1
+                    if fi.qual not in listed and fi.cls not in listed and isinstance(c, ast.For) and _order_free_loop(fi, c):
+                        rep.ok("R5", f"{fi.file}::{fi.qual} iterates os.listdir unsorted", "the loop only filters names into a list that is sorted before it is used", K.where(fi, fi.node))
+                        continue
                     rep.check(fi.qual in listed or fi.cls in listed, "R5", f"{fi.file}::{fi.qual} iterates os.listdir unsorted", unparse(it)[:80], K.where(fi, fi.node))
     rep.ok("R5", "scan complete", f"{n} candidate sites", "csvpath/")
